@@ -173,6 +173,14 @@ def sweep_scenarios(tier, rnd):
         f = linkconc.build_frame(0xC4 if n else 0xC9, 1024, 1, payload)
         out.append({"id": "sweep2_%d" % n, "cfg": {"discard": False, "datagram": False, "local": 1024},
                     "frames": [f.hex()], "steps": [{"k": "sweep", "hex": f.hex(), "flips": 2}], "meta": {}})
+    # a damaged frame followed, in the same read, by an intact one: the intact one must come up unaltered
+    follow = linkconc.build_frame(0xC4, 1024, 2, bytes(rnd.randrange(256) for _ in range(20)))
+    for n in ([1, 17, 40] if tier == "quick" else [0, 1, 16, 17, 33, 40, 100, 250]):
+        payload = bytes(rnd.choice([x for x in range(256) if x not in (5, 0x64)]) for _ in range(n))
+        f = linkconc.build_frame(0xC4 if n else 0xC9, 1024, 1, payload)
+        out.append({"id": "sweepf_%d" % n, "cfg": {"discard": True, "datagram": False, "local": 1024},
+                    "frames": [f.hex(), follow.hex()],
+                    "steps": [{"k": "sweep", "hex": f.hex(), "flips": 1, "follow": follow.hex()}], "meta": {}})
     f = linkconc.build_frame(0xC9, 1024, 1, b"")
     out.append({"id": "sweep3_0", "cfg": {"discard": False, "datagram": False, "local": 1024},
                 "frames": [f.hex()], "steps": [{"k": "sweep", "hex": f.hex(), "flips": 3,
